@@ -27,6 +27,17 @@ theorem count_emit (name : String) (pos : Nat) (r : Run) (n : String) (p : Nat) 
   simp only [count, List.filter_cons, List.filter_nil]
   split <;> simp
 
+theorem count_emitSeen (name : String) (pos : Nat) (r : Run) (n : String) (p : Nat) (o : Outcome) :
+    count name pos (r.emitSeen n p o).log = count name pos r.log + (if n == name && p == pos then 1 else 0) := by
+  simp only [Run.emitSeen, count_append]
+  congr 1
+  simp only [count, List.filter_cons, List.filter_nil]
+  split <;> simp
+
+theorem count_emitLast (name : String) (pos : Nat) (r : Run) (n : String) (p : Nat) :
+    count name pos (r.emitLast n p).log = count name pos r.log + (if n == name && p == pos then 1 else 0) :=
+  count_emitSeen name pos r n p r.last
+
 /-- **the executor's own events**: every execution ends with exactly one verdict event, matching the returned result's
 `SuccessAll`, followed by exactly one `OnDone` — and nothing after -/
 theorem one_done_one_verdict (fuel : Nat) (ps : List Policy) (r : Run) (res : PR) (r' : Run)
@@ -49,16 +60,16 @@ theorem retry_onFailure_events (pos : Nat) (m : Int) (rl : Bool) (a : List Cond)
     let exc : Bool := decide (m ≠ -1 ∧ ((getFailed r pos + 1 : Nat) : Int) > m) || durExceeded pos r
     let ab := isAbortable a res1.outcome
     (retryOnFailure pos m rl a res1 r).2.log =
-      r.log ++ [⟨"rp.onFailure", pos, r.attempts, r.execs, none⟩]
-        ++ (if ab then [⟨"rp.onAbort", pos, r.attempts, r.execs, none⟩] else [])
-        ++ (if exc && !ab then [⟨"rp.onRetriesExceeded", pos, r.attempts, r.execs, none⟩] else []) := by
+      r.log ++ [⟨"rp.onFailure", pos, r.attempts, r.execs, some res1.outcome⟩]
+        ++ (if ab then [⟨"rp.onAbort", pos, r.attempts, r.execs, some res1.outcome⟩] else [])
+        ++ (if exc && !ab then [⟨"rp.onRetriesExceeded", pos, r.attempts, r.execs, some res1.outcome⟩] else []) := by
   unfold retryOnFailure
   simp only
-  have hg : getFailed (r.emit "rp.onFailure" pos) pos = getFailed r pos := rfl
+  have hg : getFailed (r.emitSeen "rp.onFailure" pos res1.outcome) pos = getFailed r pos := rfl
   rw [hg]
   generalize (decide (m ≠ -1 ∧ ((getFailed r pos + 1 : Nat) : Int) > m) || durExceeded pos r) = exc
   generalize isAbortable a res1.outcome = ab
-  cases exc <;> cases ab <;> cases rl <;> simp [Run.emit, setFailed]
+  cases exc <;> cases ab <;> cases rl <;> simp [Run.emit, Run.emitSeen, setFailed]
 
 /-- **`OnRetryScheduled` once per retry decided, `OnRetry` once per retry started**: every scheduled retry is started — the two
 counts grow together — except that a retry scheduled when the execution is cancelled during its delay is never started (then,
@@ -112,25 +123,25 @@ theorem retry_scheduled_eq_started (pos : Nat) (m : Int) (rl : Bool) (h a : List
               have e1 := hof _ (Or.inl rfl)
               have e2 := hof _ (Or.inr rfl)
               generalize hX : (({ (retryOnFailure pos m rl a res1.withFailure r1).2 with
-                  last := (retryOnFailure pos m rl a res1.withFailure r1).1.outcome }).emit "rp.onRetryScheduled" pos).trigger "rp.onRetryScheduled" = X at hh
+                  last := (retryOnFailure pos m rl a res1.withFailure r1).1.outcome }).emitLast "rp.onRetryScheduled" pos).trigger "rp.onRetryScheduled" = X at hh
               have hXs : count "rp.onRetryScheduled" pos X.log = count "rp.onRetryScheduled" pos r1.log + 1 := by
-                rw [← hX, Run.trigger_log]; simp only [Run.emit, count_append]; rw [e1]; simp [count]
+                rw [← hX, Run.trigger_log]; simp only [Run.emitLast, Run.emitSeen, count_append]; rw [e1]; simp [count]
               have hXr : count "rp.onRetry" pos X.log = count "rp.onRetry" pos r1.log := by
-                rw [← hX, Run.trigger_log]; simp only [Run.emit, count_append]; rw [e2]; simp [count]
+                rw [← hX, Run.trigger_log]; simp only [Run.emitLast, Run.emitSeen, count_append]; rw [e2]; simp [count]
               by_cases hx : X.isCanc = true
               · simp only [hx, if_true, Option.some.injEq, Prod.mk.injEq] at hh
                 obtain ⟨_, rfl⟩ := hh
                 refine ⟨Or.inr ⟨by omega, hx⟩, by omega, by omega⟩
               · simp only [hx] at hh
                 have := ih _ res r' hh
-                simp only [count_emit, Run.emit, count_append, count] at this hXs hXr h1 h2 ⊢
+                simp only [count_emit, count_emitLast, count_emitSeen, Run.emit, Run.emitLast, Run.emitSeen, count_append, count] at this hXs hXr h1 h2 ⊢
                 simp at this hXs hXr
                 rcases this with ⟨h0 | ⟨h0, hcan⟩, hm1, hm2⟩
                 · exact ⟨Or.inl (by omega), by omega, by omega⟩
                 · exact ⟨Or.inr ⟨by omega, hcan⟩, by omega, by omega⟩
           · simp only [hfl, Option.some.injEq, Prod.mk.injEq] at hh
             obtain ⟨_, rfl⟩ := hh
-            simp only [count_emit]
+            simp only [count_emit, count_emitSeen]
             simp; omega
 
 /-- **rejection events**: `OnFull` fires exactly when the bulkhead refuses (and then nothing inside runs) -/
